@@ -141,4 +141,11 @@ func VerifH_SYS_C08() {
 		}
 		submit(&calls[i])
 	}
+	if verifParam("latecut", 1) == 1 {
+		// once everything has settled the broker may close the connection on its own (and lose the session)
+		verifPause()
+		if verifChoice("latecut", 2) == 1 {
+			b.cutIdle()
+		}
+	}
 }
